@@ -368,3 +368,35 @@ func VerifC12RestoreScan() {
 	rt.Reach("restored")
 	rt.Reach("end")
 }
+
+// ---- cut: import of an exported keystore (same contract as NewKeystore's cut: it fails and caches nothing, or
+// stores the keystore and caches its address manager; the imported wallet has zero or one address with history).
+var VerifImportAddresses int
+
+func (km *KeystoreManager) ImportKeystore(dbTransaction mwdb.DBTransaction, checkfunc func([]byte) (bool, error),
+	keystoreJson []byte, oldPrivPass []byte, addressGapLimit uint32) (*AddrManager, error) {
+	if !VerifNewKeystoreModel {
+		return km.ImportKeystore__real(dbTransaction, checkfunc, keystoreJson, oldPrivPass, addressGapLimit)
+	}
+	fail := rt.NondetBool()
+	if s, ok := dbTransaction.(interface{ VerifSuspendFaults(bool) }); ok {
+		s.VerifSuspendFaults(true)
+		defer s.VerifSuspendFaults(false)
+	}
+	if fail {
+		return nil, errVerifNewKeystore
+	}
+	if !rt.CutActive("newKeystore") {
+		return km.ImportKeystore__real(dbTransaction, checkfunc, keystoreJson, oldPrivPass, addressGapLimit)
+	}
+	km.mu.Lock()
+	defer km.mu.Unlock()
+	name := "ac10cccccccccccccccccccccccccccccccccccccc"
+	am := &AddrManager{keystoreName: name, version: KeystoreVersionLatest, index: map[uint32]string{}, addrs: map[string]*ManagedAddress{}, acctInfo: &accountInfo{}, branchInfo: &branchInfo{}}
+	for i := 0; i < VerifImportAddresses; i++ {
+		a := "ms1qimportedaddress"
+		am.addrs[a] = &ManagedAddress{address: a, keystoreName: name, scriptHash: make([]byte, 32)}
+	}
+	km.managedKeystores[name] = am
+	return am, nil
+}
